@@ -1,6 +1,11 @@
 (* DC02.v — dispatch entries of property C02 (ID ↦ geometry of its voxel, tiling).
    corr = the bit-exact model (VertexF / PointF, transcendental functions answered by Go's math package) equals the observed output;
-   prop = the checkers of VertexCheck.v (exact integer references, corner order, midpoint, round trip, shared faces) accept the observed output. *)
+   prop = the checkers of VertexCheck.v accept the observed output; prop is a function of the arguments and the observed output only
+   (exact integer references for longitude/altitude, corner order, edge latitudes tied to their rows through the library's own row formula,
+   centre latitude = truncated midpoint of the reported edges and strictly between them, round trip, shared faces incl. the antimeridian).
+   Domain: the property quantifies over valid IDs. A well-formed ID with zooms in 0..35 whose x, y or f is outside the grid is outside the
+   quantifier (the clamp / wrap of the public API there is neither claimed nor modelled faithfully for |x| >= 2^53): such a case is
+   answered bad_case, never a pass. The helpers' clamp / wrap is exercised through the hook entries inside a declared domain. *)
 From Coq Require Import ZArith String List Bool Floats.
 From SID Require Import Base Str Ids Wire F64 ExactRef PointF VertexF VertexCheck.
 Import ListNotations.
@@ -29,40 +34,46 @@ Open Scope string_scope.
     end.
   Definition c02_res_points (m : result (list point)) : val :=
     match m with Ok l => c02_of_points l | Err => VE VNil end.
+  (* an error comes with the empty list (documented) *)
+  Definition c02_err_empty (obs : val) : bool :=
+    match obs with VE p => match as_L p with Some [] => true | _ => false end | _ => false end.
   Definition c02_corr_points (m : result (list point)) (obs : val) : bool :=
     match m, obs with
-    | Err, VE _ => true
+    | Err, _ => c02_err_empty obs
     | Ok l, _ => match c02_as_points obs with Some o => c02_points_eqb l o | None => false end
-    | _, _ => false
     end.
 
   (* GetPointOnExtendedSpatialId / GetPointOnSpatialId *)
   Definition c02_parse (sid : bool) (id : string) : option eid :=
     if sid then match sid_to_eid_str id with Some e => parse_eid e | None => None end else parse_eid id.
+  Definition c02_rowf (oracle : oracle_t) (h : Z) (lat : float) : option Z :=
+    y_f (c02_ofun oracle "tan") (c02_ofun oracle "cos") (c02_ofun oracle "log") lat h.
+  (* what the property says about the corner list of a valid ID *)
+  Definition c02_prop_vertices (oracle : oracle_t) (i : eid) (o : list point) : bool :=
+    check_vertices i o && check_rows (c02_rowf oracle (eh i)) i o.
   Definition d_point_on_id (oracle : oracle_t) (sid : bool) (args : list val) (obs : val) : verdict :=
     match args with
     | [VS id; VZ opt] =>
         let sinhf := c02_ofun oracle "sinh" in let atanf := c02_ofun oracle "atan" in
         let m := if sid then point_on_sid_api sinhf atanf id opt else point_on_eid_api sinhf atanf id opt in
         let corr := c02_corr_points m obs in
-        let prop :=
-          match c02_parse sid id with
-          | None => is_err obs
-          | Some i =>
-              if negb (check_zoom (eh i) && check_zoom (ev i)) then is_err obs
-              else if negb ((opt =? 0)%Z || (opt =? 1)%Z) then is_err obs
-              else match c02_as_points obs with
-                   | None => false
-                   | Some o =>
-                       if validb i then (if (opt =? 0)%Z then check_vertices i o else check_centre i o)
-                       else (length o =? (if (opt =? 0)%Z then 8 else 1))%nat     (* outside the grid only the shape is claimed *)
-                   end
-          end in
-        mkv corr prop "-" (c02_res_points m)
+        let out := c02_res_points m in
+        match c02_parse sid id with
+        | None => mkv corr (c02_err_empty obs) "-" out
+        | Some i =>
+            if negb (check_zoom (eh i) && check_zoom (ev i)) then mkv corr (c02_err_empty obs) "-" out
+            else if negb ((opt =? 0)%Z || (opt =? 1)%Z) then mkv corr (c02_err_empty obs) "-" out
+            else if negb (validb i) then bad_case            (* outside the grid: outside the property's quantifier *)
+            else let prop := match c02_as_points obs with
+                             | None => false
+                             | Some o => if (opt =? 0)%Z then c02_prop_vertices oracle i o else check_centre i o
+                             end in
+                 mkv corr prop "-" out
+        end
     | _ => bad_case
     end.
 
-  (* CentreRoundTrip: [id; sid?] ↦ [centre; ID of the centre at the same zooms] *)
+  (* CentreRoundTrip: [id; sid?] ↦ [centre; ID of the centre at the same zooms; the eight vertices of the same ID] *)
   Definition d_roundtrip (oracle : oracle_t) (args : list val) (obs : val) : verdict :=
     match args with
     | [VS id; VB sid] =>
@@ -71,85 +82,106 @@ Open Scope string_scope.
         match c02_parse sid id with
         | None => mkv (is_err obs) (is_err obs) "-" (VE VNil)
         | Some i =>
-            let mc := if sid then point_on_sid_api sinhf atanf id 1 else point_on_eid_api sinhf atanf id 1 in
-            match mc with
-            | Ok [c] =>
-                let mb := if sid then points_sid_api tanf cosf logf false [c] (eh i)
-                          else points_api tanf cosf logf false [c] (eh i) (ev i) in
-                match mb with
-                | Ok [b] =>
-                    let model := VL [c02_of_point c; VS b] in
-                    match obs with
-                    | VL [pc; VS ob] =>
-                        let corr := match c02_as_point pc with Some oc => c02_point_eqb c oc | None => false end && String.eqb b ob in
-                        let back := if sid then match sid_to_eid_str ob with Some e => e | None => EmptyString end else ob in
-                        let prop := if validb i
-                                    then check_roundtrip i back &&
-                                         match c02_as_point pc with Some oc => check_centre i [oc] | None => false end
-                                    else true in
-                        mkv corr prop "-" model
-                    | _ => mkv false false "-" model
+            if negb (check_zoom (eh i) && check_zoom (ev i)) then mkv (is_err obs) (is_err obs) "-" (VE VNil)
+            else if negb (validb i) then bad_case
+            else
+              let api o := if sid then point_on_sid_api sinhf atanf id o else point_on_eid_api sinhf atanf id o in
+              let model :=
+                match api 1, api 0 with
+                | Ok [c], Ok mv =>
+                    match (if sid then points_sid_api tanf cosf logf false [c] (eh i) else points_api tanf cosf logf false [c] (eh i) (ev i)) with
+                    | Ok [b] => Some (c, b, mv)
+                    | _ => None
                     end
-                | _ => mkv (is_err obs) (is_err obs) "-" (VE VNil)
-                end
-            | _ => mkv (is_err obs) (is_err obs) "-" (VE VNil)
-            end
+                | _, _ => None
+                end in
+              let mval := match model with Some (c, b, mv) => VL [c02_of_point c; VS b; c02_of_points mv] | None => VE VNil end in
+              match obs with
+              | VL [pc; VS ob; pv] =>
+                  match c02_as_point pc, c02_as_points pv with
+                  | Some oc, Some ov =>
+                      let corr := match model with
+                                  | Some (c, b, mv) => c02_point_eqb c oc && String.eqb b ob && c02_points_eqb mv ov
+                                  | None => false end in
+                      let back := if sid then match sid_to_eid_str ob with Some e => e | None => EmptyString end else ob in
+                      let prop := check_roundtrip i back && check_centre i [oc] && c02_prop_vertices oracle i ov &&
+                                  match ov with
+                                  | p0 :: _ :: p2 :: _ => check_centre_lat (plat p0) (plat p2) (plat oc)
+                                  | _ => false end in
+                      mkv corr prop "-" mval
+                  | _, _ => mkv false false "-" mval
+                  end
+              | _ => mkv false false "-" mval
+              end
         end
     | _ => bad_case
     end.
 
-  (* SharedFaces: [idA; idB; axis] with B the neighbour of A along the axis ↦ [vertices of A; vertices of B] *)
+  (* SharedFaces: [idA; idB; axis] with B the neighbour of A along the axis (3 = across the antimeridian) ↦ [vertices of A; vertices of B] *)
   Definition d_shared (oracle : oracle_t) (args : list val) (obs : val) : verdict :=
     match args with
     | [VS ida; VS idb; VZ axis] =>
         let sinhf := c02_ofun oracle "sinh" in let atanf := c02_ofun oracle "atan" in
         match parse_eid ida, parse_eid idb with
         | Some a, Some b =>
-            if negb (validb a && validb b && eid_eqb b (neighbour axis a)) then bad_case
-            else match point_on_eid_api sinhf atanf ida 0, point_on_eid_api sinhf atanf idb 0 with
-                 | Ok ma, Ok mb =>
-                     let model := VL [c02_of_points ma; c02_of_points mb] in
-                     match obs with
-                     | VL [oa; ob] =>
-                         match c02_as_points oa, c02_as_points ob with
-                         | Some pa, Some pb =>
-                             mkv (c02_points_eqb ma pa && c02_points_eqb mb pb)
-                                 (check_shared axis pa pb && check_vertices a pa && check_vertices b pb) "-" model
-                         | _, _ => mkv false false "-" model
-                         end
-                     | _ => mkv false false "-" model
-                     end
-                 | _, _ => bad_case
-                 end
+            if negb (validb a && validb b && neighbour_ok axis a && eid_eqb b (neighbour axis a)) then bad_case
+            else
+              let model := match point_on_eid_api sinhf atanf ida 0, point_on_eid_api sinhf atanf idb 0 with
+                           | Ok ma, Ok mb => Some (ma, mb) | _, _ => None end in
+              let mval := match model with Some (ma, mb) => VL [c02_of_points ma; c02_of_points mb] | None => VE VNil end in
+              match obs with
+              | VL [oa; ob] =>
+                  match c02_as_points oa, c02_as_points ob with
+                  | Some pa, Some pb =>
+                      mkv (match model with Some (ma, mb) => c02_points_eqb ma pa && c02_points_eqb mb pb | None => false end)
+                          (check_shared axis pa pb && c02_prop_vertices oracle a pa && c02_prop_vertices oracle b pb) "-" mval
+                  | _, _ => mkv false false "-" mval
+                  end
+              | _ => mkv false false "-" mval
+              end
         | _, _ => bad_case
         end
     | _ => bad_case
     end.
 
-  (* hooks: the unexported helpers, also outside the grid (clamp / wrap branches) *)
+  (* hooks: the unexported helpers getVertexOnVoxelOffset / getCenterPointOnVoxelOffset applied to (x, y, h) and the vertical point of (f, v),
+     also outside the grid (clamp of the row, wrap of the column). Declared domain: zooms 0..35, f in range, |x|, |y| <= 2^40 (the wrap loop
+     costs |x|/2^h turns and float64(x) is exact there); anything else is bad_case. prop: exact longitudes of column x mod 2^h, exact altitudes,
+     latitude pattern and the rows of the clamped row index. *)
+  Definition c02_hook_dom (x y h f v : Z) : bool :=
+    check_zoom h && check_zoom v && (- 2 ^ v <=? f)%Z && (f <? 2 ^ v)%Z && (Z.abs x <=? 2 ^ 40)%Z && (Z.abs y <=? 2 ^ 40)%Z.
+  Definition c02_hook_id (x y h f v : Z) : eid :=
+    mk h (x mod 2 ^ h) (Z.max 0 (Z.min y (2 ^ h - 1))) v f.
   Definition d_vertex_hook (oracle : oracle_t) (centre_q : bool) (args : list val) (obs : val) : verdict :=
     match args with
-    | [VZ x; VZ y; VZ h; VF alt; VF res] =>
-        let sinhf := c02_ofun oracle "sinh" in let atanf := c02_ofun oracle "atan" in
-        let m := if centre_q then [centre sinhf atanf h x y alt res] else vertices sinhf atanf h x y alt res in
-        let corr := c02_corr_points (Ok m) obs in
-        mkv corr corr "-" (c02_of_points m)
+    | [VZ x; VZ y; VZ h; VZ f; VZ v] =>
+        if negb (c02_hook_dom x y h f v) then bad_case
+        else
+          let sinhf := c02_ofun oracle "sinh" in let atanf := c02_ofun oracle "atan" in
+          let alt := valt f v in let res := vres v in
+          let m := if centre_q then [centre sinhf atanf h x y alt res] else vertices sinhf atanf h x y alt res in
+          let corr := c02_corr_points (Ok m) obs in
+          let i := c02_hook_id x y h f v in
+          let prop := match (if is_err obs then None else c02_as_points obs) with
+                      | Some o => if centre_q then check_centre i o else c02_prop_vertices oracle i o
+                      | None => false end in
+          mkv corr prop "-" (c02_of_points m)
     | _ => bad_case
     end.
   Definition d_alt_hook (args : list val) (obs : val) : verdict :=
     match args with
     | [VZ f; VZ v] =>
-        let a := valt f v in let r := vres v in
-        match obs with
-        | VL [VF oa; VF or] =>
-            let corr := feqb_bits a oa && feqb_bits r or in
-            let prop := if check_zoom v && (- 2 ^ v <=? f)%Z && (f <? 2 ^ v)%Z
-                        then is_bottom v f oa && dy_eq or (2 ^ 25) v else corr in
-            mkv corr prop "-" (VL [VF a; VF r])
-        | _ => mkv false false "-" (VL [VF a; VF r])
-        end
+        if negb (check_zoom v && (- 2 ^ v <=? f)%Z && (f <? 2 ^ v)%Z) then bad_case
+        else
+          let a := valt f v in let r := vres v in
+          match obs with
+          | VL [VF oa; VF or] =>
+              mkv (feqb_bits a oa && feqb_bits r or) (is_bottom v f oa && dy_eq or (2 ^ 25) v) "-" (VL [VF a; VF r])
+          | _ => mkv false false "-" (VL [VF a; VF r])
+          end
     | _ => bad_case
     end.
+  (* getExtendedSpatialIdAttrs: the only property is the parse relation itself (five int64 fields or an error), so prop = corr here *)
   Definition d_attrs_hook (args : list val) (obs : val) : verdict :=
     match args with
     | [VS id] =>
